@@ -415,21 +415,26 @@ type harness struct {
 	verifiedState string
 }
 
+// failure is what bad panics with; the history runner turns it into the report.
+type failure struct{ report string }
+
 func (h *harness) bad(format string, a ...any) {
-	h.t.Helper()
 	real := "(not observable)"
 	if v, err := h.diskView(); err == nil {
 		real = v
 	} else {
 		real = "(reopening failed: " + err.Error() + ")"
 	}
-	h.t.Fatalf("REPLAY-COUNTEREXAMPLE\nhistory:\n  %s\nproblem: %s\nmodel state: %s\nreal state:  %s\naudit log:\n%s", strings.Join(h.hist, "\n  "), fmt.Sprintf(format, a...), h.m, real, h.sink.buf.String())
+	panic(failure{fmt.Sprintf("REPLAY-COUNTEREXAMPLE\nhistory:\n  %s\nproblem: %s\nmodel state: %s\nreal state:  %s\naudit log:\n%s", strings.Join(h.hist, "\n  "), fmt.Sprintf(format, a...), h.m, real, h.sink.buf.String())})
 }
 
 // guard runs f and reports a panic of the code under test as a counterexample.
 func (h *harness) guard(what string, f func()) {
 	defer func() {
 		if e := recover(); e != nil {
+			if f, ok := e.(failure); ok {
+				panic(f)
+			}
 			h.bad("%s panicked: %v", what, e)
 		}
 	}()
@@ -536,7 +541,6 @@ func newHarness(t *testing.T, o newOpts) *harness {
 	dir := filepath.Join(scratchBase, fmt.Sprint(scratchN))
 	os.MkdirAll(filepath.Join(dir, "state"), 0700)
 	h := &harness{stats: map[string]int{}, t: t, dir: dir, path: filepath.Join(dir, "state", "db"), key: &testutil.DummyAEAD{Name: "replay"}, sink: &auditSink{}, m: model{}, everStored: map[string]bool{}}
-	h.start(o)
 	return h
 }
 
@@ -643,7 +647,9 @@ func (h *harness) leaks(body string, extra ...string) string {
 
 var requiredAction = map[string]string{"list": "info", "get": "get", "info": "info", "put": "put", "activate": "activate", "delete": "delete", "delete-version": "delete"}
 
-func (h *harness) step(q *reqSpec) {
+func (h *harness) step(spec *reqSpec) {
+	cp := *spec
+	q := &cp
 	h.hist = append(h.hist, q.String())
 	before := h.m.clone()
 	fileBefore, _ := os.ReadFile(h.path)
@@ -651,7 +657,7 @@ func (h *harness) step(q *reqSpec) {
 	auditBefore, attemptsBefore := h.sink.buf.Len(), h.sink.attempts
 	s3Before := len(h.s3.snapshot())
 	if h.auditBroken {
-		q.audFail = true
+		q.audFail = true // the sticky encoder keeps failing
 	}
 
 	// the tailnet's answers
@@ -1234,7 +1240,7 @@ func biasFor(focus string) bias {
 var (
 	endpoints = []string{"list", "get", "info", "put", "activate", "delete", "delete-version"}
 	genNames  = []string{"alpha", "beta/x", "", "_internal/cfg"}
-	genValues = []string{"", "S3CR3T-one-0001", " S3CR3T-two-0002\n", "\xff\x00S3CR3T-three\xfe", "S3CR3T-four- "}
+	genValues = []string{"", "S3CR3T-one-0001", " S3CR3T-two-0002\n", "\xff\x00S3CR3T-three\xfe", "S3CR3T-four-\u00a0"}
 	patterns  = []string{"*", "al*", "*a", "beta/*", "*/x", "", "alpha", "a*p*a", "_internal/*"}
 )
 
@@ -1566,6 +1572,81 @@ func newWithBucket(t *testing.T) {
 
 var backupModes = []string{"ok", "ok", "http-500", "http-403", "transport-error", "cancelled-during-upload", "context-already-cancelled", "file-missing", "write-during-upload"}
 
+// op is one recorded operation of a history.
+type op struct {
+	kind string // request | backup | periodic | restart
+	mode string
+	q    *reqSpec // the request; for a backup with a write in flight, that write
+}
+
+func (h *harness) do(o op) {
+	switch o.kind {
+	case "request":
+		h.step(o.q)
+	case "backup":
+		h.backup(o.mode, o.q)
+	case "periodic":
+		h.periodic(o.mode)
+	case "restart":
+		h.restart()
+	}
+}
+
+// runHistory runs a history on a fresh server and returns the counterexample
+// report, or "" if the real code agrees with the model throughout. Either the
+// fixed operations are replayed, or generate produces them on the fly (they
+// are then recorded in *rec).
+func runHistory(t *testing.T, o newOpts, vals []string, stats map[string]int, fixed []op, generate func(h *harness, do func(op)), rec *[]op) (report string) {
+	var h *harness
+	defer func() {
+		if h != nil {
+			os.RemoveAll(h.dir)
+		}
+		if e := recover(); e != nil {
+			f, ok := e.(failure)
+			if !ok {
+				panic(e)
+			}
+			report = f.report
+		}
+	}()
+	h = newHarness(t, o)
+	h.vals = vals
+	if stats != nil {
+		h.stats = stats
+	}
+	h.start(o)
+	for _, x := range fixed {
+		h.do(x)
+	}
+	if generate != nil {
+		generate(h, func(x op) {
+			*rec = append(*rec, x)
+			h.do(x)
+		})
+	}
+	return ""
+}
+
+// shrink drops operations from a failing history as long as it keeps failing,
+// and returns the report of the shortest failing history found.
+func shrink(t *testing.T, o newOpts, vals []string, ops []op, report string) string {
+	deadline := time.Now().Add(20 * time.Second)
+	if r := runHistory(t, newOpts{}, vals, nil, ops, nil, nil); r != "" {
+		o, report = newOpts{}, r
+	}
+	for changed := true; changed; {
+		changed = false
+		for i := len(ops) - 1; i >= 0 && time.Now().Before(deadline); i-- {
+			shorter := append(append([]op(nil), ops[:i]...), ops[i+1:]...)
+			if r := runHistory(t, o, vals, nil, shorter, nil, nil); r != "" {
+				ops, report, changed = shorter, r, true
+			}
+		}
+	}
+	return report
+}
+
 func TestVerifReplayServer(t *testing.T) {
 	focus := os.Getenv("VERIF_REPLAY_FOCUS")
 	b := biasFor(focus)
@@ -1585,45 +1666,49 @@ func TestVerifReplayServer(t *testing.T) {
 	}
 
 	scratchBase = scratchDir(t)
-	rng := rand.New(rand.NewSource(1))
+	rng := rand.New(rand.NewSource(replaySeed()))
 	stats := map[string]int{}
 	for r := 0; r < b.runs; r++ {
 		o := newOpts{viaPath: rng.Intn(6) == 0, decoyPath: rng.Intn(3) == 0, regionNoBkt: rng.Intn(4) == 0 || b.newVariant && rng.Intn(2) == 0}
-		h := newHarness(t, o)
-		h.stats = stats
-		h.vals = []string{pick(rng, genValues), pick(rng, genValues), pick(rng, genValues)}
-		// most histories start by building up a few versions of one secret
-		for k := rng.Intn(5); k > 0; k-- {
-			q := genRequest(rng, bias{pAllow: 1, setup: true}, h, 0, false, false)
-			if rng.Intn(3) == 0 {
-				q.who.place, q.who.kind = "primary", "user"
-			}
-			h.step(q)
-		}
-		n := 3 + rng.Intn(8)
-		for i := 0; i < n; i++ {
-			last := r%2 == 0 && i == n-1
-			switch x := rng.Float64(); {
-			case x < b.pBackup && !h.auditBroken:
-				mode := pick(rng, backupModes)
-				var nested *reqSpec
-				if mode == "write-during-upload" {
-					nested = genRequest(rng, bias{pAllow: 1}, h, i, false, false)
-					nested.ep, nested.name, nested.value = "put", genNames[0], fmt.Sprintf("S3CR3T-during-upload-%d", r)
-					nested.who = genWho(rng, bias{pAllow: 1}, "put", nested.name, i)
-					nested.who.rules, nested.who.place = superRules(), "primary"
-					nested.body = canonicalBody(nested)
+		vals := []string{pick(rng, genValues), pick(rng, genValues), pick(rng, genValues)}
+		var ops []op
+		// the operations are generated while the history runs (they depend on the model state) and recorded
+		report := runHistory(t, o, vals, stats, nil, func(h *harness, do func(op)) {
+			// most histories start by building up a few versions of one secret
+			for k := rng.Intn(5); k > 0; k-- {
+				q := genRequest(rng, bias{pAllow: 1, setup: true}, h, 0, false, false)
+				if rng.Intn(3) == 0 {
+					q.who.place, q.who.kind = "primary", "user"
 				}
-				h.backup(mode, nested)
-			case x < b.pBackup+b.pBackup/4 && !h.auditBroken:
-				h.periodic(pick(rng, []string{"ok", "ok", "first-upload-fails", "context-already-cancelled"}))
-			case x < b.pBackup+b.pBackup/4+b.pRestart:
-				h.restart()
-			default:
-				h.step(genRequest(rng, b, h, i, last, i >= n-2))
+				do(op{kind: "request", q: q})
 			}
+			n := 3 + rng.Intn(8)
+			for i := 0; i < n; i++ {
+				last := r%2 == 0 && i == n-1
+				switch x := rng.Float64(); {
+				case x < b.pBackup && !h.auditBroken:
+					mode := pick(rng, backupModes)
+					var nested *reqSpec
+					if mode == "write-during-upload" {
+						nested = genRequest(rng, bias{pAllow: 1}, h, i, false, false)
+						nested.ep, nested.name, nested.value = "put", genNames[0], fmt.Sprintf("S3CR3T-during-upload-%d", r)
+						nested.who = genWho(rng, bias{pAllow: 1}, "put", nested.name, i)
+						nested.who.rules, nested.who.place = superRules(), "primary"
+						nested.body = canonicalBody(nested)
+					}
+					do(op{kind: "backup", mode: mode, q: nested})
+				case x < b.pBackup+b.pBackup/4 && !h.auditBroken:
+					do(op{kind: "periodic", mode: pick(rng, []string{"ok", "ok", "first-upload-fails", "context-already-cancelled"})})
+				case x < b.pBackup+b.pBackup/4+b.pRestart:
+					do(op{kind: "restart"})
+				default:
+					do(op{kind: "request", q: genRequest(rng, b, h, i, last, i >= n-2)})
+				}
+			}
+		}, &ops)
+		if report != "" {
+			t.Fatal(shrink(t, o, vals, ops, report))
 		}
-		os.RemoveAll(h.dir)
 	}
 
 	if os.Getenv("VERIF_REPLAY_STATS") != "" {
@@ -1652,4 +1737,11 @@ func TestVerifReplayServer(t *testing.T) {
 	} else {
 		t.Log("timing of periodicBackup not replayed: testing/synctest needs GOEXPERIMENT=synctest with this toolchain (and the companion file zz_verif_replay_timing_test.go in the overlay)")
 	}
+}
+
+// replaySeed: the seed is fixed; VERIF_REPLAY_SEED overrides it when exploring by hand.
+func replaySeed() int64 {
+	var n int64 = 1
+	fmt.Sscan(os.Getenv("VERIF_REPLAY_SEED"), &n)
+	return n
 }
